@@ -115,11 +115,14 @@ CLAIMED = {
     ),
     "C08": (
         "Coq invariant by induction over arbitrary event lists / tie policies / transport behaviours (Hoare-style triples over the step monad, holding at assertion crashes too) + computed ladder and refutation witness + trace-equality correspondence + schedule oracle",
-        "5 theorems in coq/props/C08.v: in EVERY reachable world tx_count <= tx_limit, limit >= 1 for a current command, back-off exponent "
+        "9 theorems in coq/props/C08.v: in EVERY reachable world tx_count <= tx_limit, limit >= 1 for a current command, back-off exponent "
         "<= 3 (so every wait is base x 2^k, k <= 3); limit = 1 + min(max_retries, MAX_RETRY_LIMIT) with the constant regenerated; the exact "
         "ladder (writes at +0, +0.5, +1.5, +3.5 s, failure at +7.5 s) by computation; 'never transmitted after the caller was answered' is "
-        "REFUTED with a witness (transport-delayed write) that the oracle re-observes on the real FSM (KNOWN). One-in-flight and "
-        "priority-then-FIFO start order are decided by the oracle on the implementation + trace equality, not by theorems (partial).",
+        "REFUTED with a witness (transport-delayed write) that the oracle re-observes on the real FSM (KNOWN). PRIORITY THEN FIFO: in EVERY "
+        "reachable world (crashes included) the send buffer is in (priority, arrival stamp) order with unique stamps (C08_queue_ordered: insertion keeps the order, "
+        "the stamp only grows, every other callback leaves buffer and stamp alone), and the command that starts next is the first entry whose caller has not gone -- "
+        "everything still waiting has a worse priority or the same priority and a later arrival (C08_next_is_least_pending); computed witness of an overtaking. "
+        "One-in-flight is decided by the oracle on the implementation + trace equality, not by a theorem (partial; with a slow transport it is refuted, see above).",
         "Trusted: Coq kernel, translator (FSM constants), harness (virtual-time loop = CPython's own _run_once with a clock-advancing selector, in-memory transport). Modelled not verified: asyncio semantics as assumed by the mini loop; threading.Lock, GC timing of never-retrieved task exceptions, the 0418 null-reply special case, the impersonation alert of PortProtocol.send_cmd. Liveness is only 'a wake-up is armed / a wake-up answers' -- that due timers run is the event loop's job.",
         "6 (C07-C09)",
     ),
